@@ -1,6 +1,7 @@
-(* C11 - Plain indicators are found at any offset with exact span and canonical value.  PARTIAL (see DESIGN.md): what is proved is (1) the validators accept every instance of the indicator grammars (canonical quads, name.TLD), (2) what each decoder reports for a given match list: the match text itself with the documented type and exactly the match span, balanced CreateObject, PE carving for any section table within bounds, (3) soundness and - for assertion-free patterns - completeness of the matcher model w.r.t. the regex language.  That the engine SELECTS exactly the instance's span under neutral embedding is exercised by harness/props/C11.py, not proved. *)
+(* C11 - Plain indicators are found at any offset with exact span and canonical value.  PARTIAL (see DESIGN.md): what is proved is (1) the validators accept every instance of the indicator grammars (canonical quads, name.TLD), (2) what each decoder reports for a given match list: the match text itself with the documented type and exactly the match span, balanced CreateObject, PE carving for any section table within bounds, (3) soundness and - for assertion-free patterns - completeness of the matcher model w.r.t. the regex language.  (4) OFFSET INDEPENDENCE of the matcher (Regex/LocalityProofs.v): what the matcher reports from a position onwards depends only on the text after that position and on the last lb_width r bytes before it, and shifts with the offset; lb_width is computed on the generated indicator regexes by name (0 or 1 byte).  That the instance itself is selected under neutral embedding (no earlier match swallowing it) is the `quiet' hypothesis of C11_offset_independent_scan, exercised by harness/props/C11.py. *)
 From MD Require Import Lib.Base Model.Node Model.Dec.Ip Model.Dec.ReLib Model.Dec.UrlSplit Model.Dec.Network Model.Dec.NtPath Model.Dec.PathDec Model.Dec.StrOps Regex.Syntax Regex.Backtrack.
 From MD Require Import Proofs.IpProofs Proofs.UrlSplitProofs Proofs.NetworkProofs Proofs.PathDecProofs Proofs.EscDecProofs Proofs.StrOpsProofs Regex.BacktrackProofs.
+From MD Require Import Regex.LocalityProofs Generated.Regexes.
 
 (* every canonical dotted quad is an instance ... *)
 Theorem C11_quad_accepted : forall s : bytes, canonical_quad s = true <-> (exists a b c d : Z, 0 <= a < 256 /\ 0 <= b < 256 /\ 0 <= c < 256 /\ 0 <= d < 256 /\ s = quad a b c d).
@@ -65,6 +66,57 @@ Print Assumptions C11_matcher_sound.
 Theorem C11_matcher_complete : forall (fuel : nat) (r : re) (p : pos), no_asserts r = true -> wf r = true -> match_here fuel r p = NoMatch -> forall w rest : list N, p_after p = w ++ rest -> ~ Lang r w.
 Proof. exact match_here_complete. Qed.
 Print Assumptions C11_matcher_complete.
+
+(* matches reported from the end of a prefix onwards: two prefixes sharing their last lb_width r bytes give the same matches, shifted by the length difference - for EVERY regex, text and offset *)
+Theorem C11_offset_independent_from : forall (fuel : nat) (r : re) (ng cnt : nat) (x1 x2 tail body : list N), (lb_width r <= Datatypes.length tail)%nat -> let pre1 := x1 ++ tail in let pre2 := x2 ++ tail in finditer_pos fuel r ng cnt (seek (Datatypes.length pre2) (start_pos (pre2 ++ body))) = option_map (map (shift_mtch (Z.of_nat (Datatypes.length pre2) - Z.of_nat (Datatypes.length pre1)))) (finditer_pos fuel r ng cnt (seek (Datatypes.length pre1) (start_pos (pre1 ++ body)))).
+Proof. exact finditer_suffix_local. Qed.
+Print Assumptions C11_offset_independent_from.
+
+Theorem C11_offset_independent_gen : forall (fuel : nat) (r : re) (ng cnt : nat) (pre1 pre2 body : list N), firstn (lb_width r) (rev pre1) = firstn (lb_width r) (rev pre2) -> finditer_pos fuel r ng cnt (seek (Datatypes.length pre2) (start_pos (pre2 ++ body))) = option_map (map (shift_mtch (Z.of_nat (Datatypes.length pre2) - Z.of_nat (Datatypes.length pre1)))) (finditer_pos fuel r ng cnt (seek (Datatypes.length pre1) (start_pos (pre1 ++ body)))).
+Proof. exact finditer_suffix_local_gen. Qed.
+Print Assumptions C11_offset_independent_gen.
+
+(* whole finditer from offset 0, when nothing matches inside the two prefixes *)
+Theorem C11_offset_independent_scan : forall (r : re) (ng : nat) (pre1 pre2 body : list N), firstn (lb_width r) (rev pre1) = firstn (lb_width r) (rev pre2) -> quiet default_fuel r (Datatypes.length pre1) (start_pos (pre1 ++ body)) -> quiet default_fuel r (Datatypes.length pre2) (start_pos (pre2 ++ body)) -> finditer r ng (pre2 ++ body) = option_map (map (shift_mtch (Z.of_nat (Datatypes.length pre2) - Z.of_nat (Datatypes.length pre1)))) (finditer r ng (pre1 ++ body)).
+Proof. exact finditer_quiet_prefix_local. Qed.
+Print Assumptions C11_offset_independent_scan.
+
+Theorem C11_offset_independent_match : forall (r : re) (ng : nat) (pre1 pre2 body : list N), firstn (lb_width r) (rev pre1) = firstn (lb_width r) (rev pre2) -> match_at r ng (pre2 ++ body) (Z.of_nat (Datatypes.length pre2)) = option_map (option_map (shift_mtch (Z.of_nat (Datatypes.length pre2) - Z.of_nat (Datatypes.length pre1)))) (match_at r ng (pre1 ++ body) (Z.of_nat (Datatypes.length pre1))).
+Proof. exact match_at_local. Qed.
+Print Assumptions C11_offset_independent_match.
+
+Theorem C11_match_here_local : forall (fuel : nat) (r : re) (p q : pos), sim (lb_width r) p q -> out_obs (match_here fuel r q) = out_obs (shift_out (p_i q - p_i p) (match_here fuel r p)).
+Proof. exact match_here_local_obs. Qed.
+Print Assumptions C11_match_here_local.
+
+(* the context the shipped indicator patterns look at before a position, computed on the regenerated regex terms *)
+Theorem C11_lookbehind_IP : lb_width RE_network_IP_RE = 1%nat.
+Proof. exact lbw_IP. Qed.
+Print Assumptions C11_lookbehind_IP.
+
+Theorem C11_lookbehind_DOMAIN : lb_width RE_network_DOMAIN_RE = 1%nat.
+Proof. exact lbw_DOMAIN. Qed.
+Print Assumptions C11_lookbehind_DOMAIN.
+
+Theorem C11_lookbehind_URL : lb_width RE_network_URL_RE = 0%nat.
+Proof. exact lbw_URL. Qed.
+Print Assumptions C11_lookbehind_URL.
+
+Theorem C11_lookbehind_EMAIL : lb_width RE_network_EMAIL_RE = 1%nat.
+Proof. exact lbw_EMAIL. Qed.
+Print Assumptions C11_lookbehind_EMAIL.
+
+Theorem C11_lookbehind_PATH : lb_width RE_path_PATH_RE = 0%nat.
+Proof. exact lbw_PATH. Qed.
+Print Assumptions C11_lookbehind_PATH.
+
+Theorem C11_lookbehind_WINDOWS_PATH : lb_width RE_path_WINDOWS_PATH_RE = 0%nat.
+Proof. exact lbw_WINDOWS_PATH. Qed.
+Print Assumptions C11_lookbehind_WINDOWS_PATH.
+
+Theorem C11_lookbehind_EXECUTABLE : lb_width RE_filename_EXECUTABLE_RE = 1%nat.
+Proof. exact lbw_EXECUTABLE. Qed.
+Print Assumptions C11_lookbehind_EXECUTABLE.
 
 Example C11_example :
   find_ips (L"zz 10.20.30.40 zz") = Ok [Node (L"network.ip") (L"10.20.30.40") [] 3 14 []]
